@@ -1,2 +1,2 @@
-import NipyVerif.Model.C01
-def main : IO Unit := NipyVerif.driverLoop NipyVerif.C01.run
+import NipyVerif.Model.C01B
+def main : IO Unit := NipyVerif.driverLoop NipyVerif.C01.run2
